@@ -44,6 +44,9 @@ type chanState struct {
 	cap    int
 	buf    []any
 	closed bool
+	// index of the tasks parked on this channel, valid while stamp == Sched.stamp (see Sched.index)
+	stamp  int
+	ps, pr [2]*task
 }
 
 type lockState struct {
@@ -144,6 +147,11 @@ type Sched struct {
 	locks    []*lockState
 	opt      Options
 	steps    int
+	live     []*task // tasks not yet finished, in creation order
+	en       []*task
+	seen     int // tasks[:seen] have been entered into live
+	stamp    int
+	indexed  bool
 	aborting bool
 	noYield  bool // set while the scheduler itself calls into instrumented code
 }
@@ -219,13 +227,59 @@ func (s *Sched) launch(t *task) {
 	}()
 }
 
+// hasParked returns the first task (in creation order) other than not that is parked in a plain send / receive on ch.
 func (s *Sched) hasParked(kind opKind, ch *chanState, not *task) *task {
-	for _, o := range s.tasks {
+	if s.indexed {
+		if ch.stamp != s.stamp {
+			return nil
+		}
+		arr := &ch.ps
+		if kind == opRecv {
+			arr = &ch.pr
+		}
+		for _, o := range arr {
+			if o != nil && o != not {
+				return o
+			}
+		}
+		return nil
+	}
+	for _, o := range s.live {
+		if o != not && !o.done && !o.served && o.kind == kind && o.ch == ch {
+			return o
+		}
+	}
+	for _, o := range s.tasks[s.seen:] {
 		if o != not && !o.done && !o.served && o.kind == kind && o.ch == ch {
 			return o
 		}
 	}
 	return nil
+}
+
+// index records, per channel, the first two tasks parked in a send and in a receive (two, because a lookup excludes
+// one task); it is valid until the next operation is applied.
+func (s *Sched) index() {
+	s.stamp++
+	for _, o := range s.live {
+		if o.done || o.served || (o.kind != opSend && o.kind != opRecv) {
+			continue
+		}
+		c := o.ch
+		if c.stamp != s.stamp {
+			c.stamp, c.ps, c.pr = s.stamp, [2]*task{}, [2]*task{}
+		}
+		arr := &c.ps
+		if o.kind == opRecv {
+			arr = &c.pr
+		}
+		if arr[0] == nil {
+			arr[0] = o
+		} else if arr[1] == nil {
+			arr[1] = o
+		}
+	}
+	s.indexed = true
 }
 
 func (s *Sched) sendReady(t *task, ch *chanState) bool {
@@ -454,14 +508,29 @@ func Run(ctx *mc.Ctx, opt Options, main func()) Outcome {
 			out.Horizon = true
 			break
 		}
-		var en []*task
-		for _, t := range s.tasks {
+		// only tasks that have not finished are looked at (a long run has thousands of finished tasks)
+		live := s.live[:0]
+		for _, t := range s.live {
+			if !t.done {
+				live = append(live, t)
+			}
+		}
+		for _, t := range s.tasks[s.seen:] {
+			if !t.done {
+				live = append(live, t)
+			}
+		}
+		s.live, s.seen = live, len(s.tasks)
+		s.index()
+		en := s.en[:0]
+		for _, t := range s.live {
 			if s.enabled(t) {
 				en = append(en, t)
 			}
 		}
+		s.en = en
 		if len(en) == 0 {
-			for _, t := range s.tasks {
+			for _, t := range s.live {
 				if !t.done {
 					out.Deadlock = true
 					out.Blocked = append(out.Blocked, fmt.Sprintf("%s@%s", t.name, opNames[t.kind]))
@@ -469,24 +538,32 @@ func Run(ctx *mc.Ctx, opt Options, main func()) Outcome {
 			}
 			break
 		}
-		if opt.RoundRobin {
-			sort.SliceStable(en, func(i, j int) bool {
-				if en[i].timer != en[j].timer {
-					return en[j].timer
-				}
-				if en[i].lastRun != en[j].lastRun {
-					return en[i].lastRun < en[j].lastRun
-				}
-				return en[i].created < en[j].created
-			})
-		} else {
-			sort.SliceStable(en, func(i, j int) bool {
-				if (en[i] == s.cur) != (en[j] == s.cur) {
-					return en[i] == s.cur
-				}
-				return en[i].name < en[j].name
-			})
+		less := func(a, b *task) bool {
+			if (a == s.cur) != (b == s.cur) {
+				return a == s.cur
+			}
+			return a.name < b.name
 		}
+		if opt.RoundRobin {
+			less = func(a, b *task) bool {
+				if a.timer != b.timer {
+					return b.timer
+				}
+				if a.lastRun != b.lastRun {
+					return a.lastRun < b.lastRun
+				}
+				return a.created < b.created
+			}
+		}
+		// the default alternative is the least task in canonical order; the full order is only needed (and only
+		// computed) when another alternative is taken
+		m := 0
+		for k := 1; k < len(en); k++ {
+			if less(en[k], en[m]) {
+				m = k
+			}
+		}
+		en[0], en[m] = en[m], en[0]
 		i := 0
 		if len(en) > 1 {
 			var cost []int
@@ -496,16 +573,25 @@ func Run(ctx *mc.Ctx, opt Options, main func()) Outcome {
 					cost[k] = 1
 				}
 			}
-			i = ctx.Sched("sched", len(en), cost, s.key())
+			var key uint64
+			if ctx.Pruning() {
+				key = s.key()
+			}
+			i = ctx.Sched("sched", len(en), cost, key)
 			if i < 0 {
 				out.Cut = true
 				break
+			}
+			if i > 0 {
+				rest := en[1:]
+				sort.SliceStable(rest, func(a, b int) bool { return less(rest[a], rest[b]) })
 			}
 		}
 		t := en[i]
 		s.cur = t
 		s.steps++
 		t.lastRun = s.steps
+		s.indexed = false
 		s.apply(t)
 		t.wake <- struct{}{}
 		if !timer.Stop() {
